@@ -16,6 +16,12 @@
      (13 16 src)               into_matrix -> (rows cols data)
      (13 17 rows cols data rn cn)  Matrix::into_tensor
      (13 20 l r)               (l == r, l.similar(r), r == l, r.similar(l))
+     (13 21 shape data nans)   element type f64 with NaN at the listed data positions (an element
+                               that is not equal to itself; modelled as `None` under an equality
+                               that is false on None — no float reaches the model):
+                               (t == t, t == t.clone(), t.clone() == t, t.view() == t.view(),
+                                t == t.view(), t.view() == t) then the same six for `similar`,
+                               same-object operands included
    with code(i) = fold (acc -> acc*7 + i_d + 1) 0 i, and the with-index maps x -> 1000x + code(i).
    A tensor result is (shape ((v)…)) : its shape and the element found by get_reference at every
    index in row-major order.  Results are outcomes: (0 r) | (1 shape) | (2). *)
@@ -55,8 +61,30 @@ Definition on_tensor (src : outcome (tsrc Z)) (k : tensor Z -> sx) : sx :=
 Definition sot (o : outcome (tensor Z)) : sx := soutcome stensor o.
 Definition okt (t : tensor Z) : sx := sot (Ok t).
 
+(* f64 with NaN: None is NaN; PartialEq is false whenever a NaN is involved *)
+Definition nan_eqb (x y : option Z) : bool :=
+  match x, y with Some a, Some b => Z.eqb a b | _, _ => false end.
+
+Fixpoint with_nans (data : list Z) (nans : list nat) (pos : nat) : list (option Z) :=
+  match data with
+  | [] => []
+  | x :: r => (if existsb (Nat.eqb pos) nans then None else Some x) :: with_nans r nans (S pos)
+  end.
+
+Definition c13_nan (sh : shape) (data : list Z) (nans : list nat) : sx :=
+  soutcome (fun t : tensor (option Z) =>
+    let e := sbool (tensor_equality nan_eqb (TBase t) (TBase t)) in
+    let s := sbool (tensor_similarity nan_eqb (TBase t) (TBase t)) in
+    SL [e; e; e; e; e; e; s; s; s; s; s; s])
+    (tensor_from sh (with_nans data nans 0)).
+
 Definition run_c13 (args : list sx) : sx :=
   match args with
+  | [SZ 21%Z; sh; data; nans] =>
+      match dshape sh, dlist dZ data, dlist dnat nans with
+      | Some sh, Some data, Some nans => c13_nan sh data nans
+      | _, _, _ => bad_case
+      end
   | [SZ 1%Z; form; src; dims] =>
       match dnat form, dsrc 8 src, dnames dims with
       | Some form, Some src, Some dims =>
